@@ -656,7 +656,10 @@ fn process_request_obj(request: &Request, dbs: &Arc<Databases>, client: &mut Cli
                     client,
                     &db_name,
                     &|db| {
-                        if dbs.is_primary() {
+                        // A resolve that arrives from the primary is the primary's copy: it is
+                        // applied here. Sending it back would make the primary fan it out again,
+                        // and the exchange would never end
+                        if dbs.is_primary() || client.is_primary() {
                             db.resolve_conflit(
                                 Change {
                                     key: key.clone(),
